@@ -15,7 +15,7 @@ from itertools import zip_longest
 import pymbolic.primitives as pmbl
 from pymbolic.mapper import Mapper, WalkMapper, CombineMapper, IdentityMapper
 from pymbolic.mapper.stringifier import (
-    StringifyMapper, PREC_NONE, PREC_SUM, PREC_CALL, PREC_PRODUCT
+    StringifyMapper, PREC_NONE, PREC_SUM, PREC_CALL, PREC_PRODUCT, PREC_POWER
 )
 try:
     from fparser.two.Fortran2003 import Intrinsic_Name
@@ -161,21 +161,35 @@ class LokiStringifyMapper(StringifyMapper):
                 enclosing_prec, PREC_PRODUCT)
         # Make Pymbolic's default bracketing less conservative by not enforcing
         # parenthesis around products nested in a product, which can cause
-        # round-off deviations for agressively optimising compilers
+        # round-off deviations for agressively optimising compilers.
+        # A quotient that is not the leading factor keeps its parenthesis, because
+        # ``a*(b/c)`` and ``a*b/c`` differ (integer division truncates)
         kwargs['force_parens_around'] = (pmbl.FloorDiv, pmbl.Remainder)
-        return self.parenthesize_if_needed(
-                self.join_rec("*", expr.children, PREC_PRODUCT, *args, **kwargs),
-                enclosing_prec, PREC_PRODUCT)
+        factors = [self.rec_with_force_parens_around(expr.children[0], PREC_PRODUCT, *args, **kwargs)]
+        kwargs['force_parens_around'] = (pmbl.Quotient, pmbl.FloorDiv, pmbl.Remainder)
+        factors += [
+            self.rec_with_force_parens_around(child, PREC_PRODUCT, *args, **kwargs)
+            for child in expr.children[1:]
+        ]
+        return self.parenthesize_if_needed(self.join("*", factors), enclosing_prec, PREC_PRODUCT)
 
     def map_quotient(self, expr, enclosing_prec, *args, **kwargs):
         # Similar to products we drop the conservative parenthesis around products and
         # quotients for the numerator
         kwargs['force_parens_around'] = (pmbl.FloorDiv, pmbl.Remainder)
         numerator = self.rec_with_force_parens_around(expr.numerator, PREC_PRODUCT, *args, **kwargs)
-        kwargs['force_parens_around'] = self.multiplicative_primitives
+        # The denominator always needs its parenthesis: ``a/(b*c)`` is not ``a/b*c``
+        kwargs['force_parens_around'] = (pmbl.Product, pmbl.Quotient, pmbl.FloorDiv, pmbl.Remainder)
         denominator = self.rec_with_force_parens_around(expr.denominator, PREC_PRODUCT, *args, **kwargs)
         return self.parenthesize_if_needed(self.format('%s / %s', numerator, denominator),
                                            enclosing_prec, PREC_PRODUCT)
+
+    def map_power(self, expr, enclosing_prec, *args, **kwargs):
+        # ``**`` is right-associative: a power as base needs parenthesis, ``(a**b)**c``
+        return self.parenthesize_if_needed(
+            self.format('%s**%s', self.rec(expr.base, PREC_CALL, *args, **kwargs),
+                        self.rec(expr.exponent, PREC_POWER, *args, **kwargs)),
+            enclosing_prec, PREC_POWER)
 
     def map_parenthesised_add(self, expr, enclosing_prec, *args, **kwargs):
         return self.parenthesize(self.map_sum(expr, PREC_NONE, *args, **kwargs))
